@@ -27,6 +27,8 @@ def run(ctx):
     simrules.product_sample_order_rule(ctx, 'C02.g')
     simrules.confusion_before_inversion_rule(ctx, 'C02.h')
     simrules.nested_copy_rule(ctx, 'C02.b2')
+    simrules.pauli_measurement_decomposition_rule(ctx, 'C02.i')
+    ctx.decided.append('C02.i PauliMeasurementGate decomposes into V^-1 . measure . V with V mapping the observable to Z (interpreted for every mask on up to 3 qubits)')
     ctx.decided.append('C02.b2 the classical measurement store copies its per-key record lists, not just the dictionaries')
     ctx.decided.append('C02.h the fast path and the per-repetition path apply confusion map and invert mask in the same (documented) order')
     mg = repo.cls('cirq.ops.measurement_gate.MeasurementGate')
